@@ -2268,6 +2268,7 @@ async fn unframed_scenario<B: Payload>(plan: &UnfPlan, obs: &ObsCell, stage: &St
         let headers = rng.bool();
         let fp = FrameP { headers, payload: payload.clone(), stream_type: None, premature_now: false };
         let extra = rng.bytes_1upto(40);
+        let poll_first = rng.bool();
         let reader = async {
             let mut rr = raw.accept_uni().await.map_err(|e| format!("raw accept_uni: {}", e))?;
             Ok::<_, String>(raw_read(&mut rr, &style).await)
@@ -2280,7 +2281,10 @@ async fn unframed_scenario<B: Payload>(plan: &UnfPlan, obs: &ObsCell, stage: &St
             let fw = rig::FlagWaker::new();
             let mut accepted = 0usize;
             let mut how = "frame-finished-first";
-            if rig::poll_once(&fw, |cx| quic::SendStream::<B>::poll_ready(&mut s, cx)).is_pending() {
+            // either right after send_data() (nothing of the frame written yet) or after a first
+            // poll_ready() that left the frame partly written
+            let unfinished = !poll_first || rig::poll_once(&fw, |cx| quic::SendStream::<B>::poll_ready(&mut s, cx)).is_pending();
+            if unfinished {
                 how = "never-answered";
                 for _ in 0..4000u32 {
                     let mut sl: &[u8] = &extra;
@@ -2313,7 +2317,7 @@ async fn unframed_scenario<B: Payload>(plan: &UnfPlan, obs: &ObsCell, stage: &St
         want.extend_from_slice(&extra[..accepted]);
         let mut o = obs.borrow_mut();
         o.evaluations += 1;
-        o.count(&format!("unframed_write_while_frame_unfinished[{}]", how));
+        o.count(&format!("unframed_write_while_frame_unfinished[{}: {}]", if poll_first { "frame partly written" } else { "right after send_data" }, how));
         if !clean {
             o.violation("write-fails-after-refused-unframed-write", format!("poll_ready / poll_finish failed on a healthy stream after an unframed write attempt ({})", how));
         } else if got != want || !matches!(end, ReadEnd::Fin) {
